@@ -38,6 +38,8 @@ def jobs(tier, seed):
             js.append({"label": f"{spec[0]}{spec[1]}|cancel1", "wl": spec, "budget": {"cancel": 1}})
         for spec in [wl("diamond"), wl("multitask"), wl("jump_cycle", 2, 1)]:
             js.append({"label": f"{spec[0]}{spec[1]}|sweep1", "wl": spec, "budget": {"sweep": 1}})
+        for spec in [wl("diamond"), wl("fail_mid"), wl("jump_cycle", 2, 1), wl("synthetic")]:
+            js.append({"label": f"{spec[0]}{spec[1]}|crash-recovery audit rows", "wl": spec, "crash": True})
     else:
         for spec in SMALL + BIG:
             js.append({"label": f"{spec[0]}{spec[1]}|noack1,sweep1", "wl": spec, "budget": {"noack": 1, "sweep": 1},
@@ -46,7 +48,32 @@ def jobs(tier, seed):
             js.append({"label": f"{spec[0]}{spec[1]}|cancel1,noack1", "wl": spec, "budget": {"cancel": 1, "noack": 1}})
         for spec in SMALL:
             js.append({"label": f"{spec[0]}{spec[1]}|spurious1,early1", "wl": spec, "budget": {"spurious": 1, "early": 1}})
+        for spec in SMALL + BIG:
+            js.append({"label": f"{spec[0]}{spec[1]}|crash-recovery audit rows", "wl": spec, "crash": True})
     return js
+
+
+def run_crash(job):
+    """E2: every audit row written while recovering from every crash image."""
+    from vlib.e2 import CrashEngine
+
+    w = world()
+    workload = make_workload(job["wl"])
+    eng = CrashEngine(w, workload, monitors=[LegalTransitionMonitor()])
+    _f, _l, snaps = eng.baseline()
+    n = 0
+    for s in snaps:
+        for order in ("restart-first", "expire-first"):
+            eng.recover(s, order)
+            n += 1
+    viols, seen = [], set()
+    for v in eng.mon_violations:
+        v["signature"] = f"e2:{v['sig']}"
+        if v["signature"] not in seen:
+            seen.add(v["signature"])
+            viols.append(v)
+    return {"states": len(snaps), "transitions": n, "violations": viols, "samples": [], "job_spec": job,
+            "audit_rows": eng.audit_rows, "crash_points": len(snaps)}
 
 
 def build(job):
@@ -70,6 +97,8 @@ def run_job(job):
             v.append({"kind": "published-transition-table-changed", "live": d["live"], "sig": "table-drift",
                       "signature": "e1:table-drift", "trace": []})
         return {"states": 1, "transitions": 1, "violations": v, "samples": [], "job_spec": job}
+    if job.get("crash"):
+        return run_crash(job)
     ex = build(job).run()
     res = result_from(ex, "e1")
     res["job_spec"] = job
